@@ -520,6 +520,86 @@ pub struct H2 {
     pub rset_init_fail_at: Option<usize>,
     /// use the Default-based wrapper (parallel_fasta / parallel_fastq) instead of the _init variant
     pub plain: bool,
+    /// run the real reader (with a counting growth policy) through the generic `read_parallel` and look
+    /// at the data sets themselves: the input is one whose records all fit the initial capacity, so the
+    /// reader's buffer - which every recycled set copies - must never be asked to grow
+    #[serde(default)]
+    pub raw_fits: bool,
+}
+
+pub struct CountingPolicy(pub Arc<std::sync::atomic::AtomicUsize>);
+
+impl seq_io::policy::BufPolicy for CountingPolicy {
+    fn grow_to(&mut self, cur: usize) -> Option<usize> {
+        self.0.fetch_add(1, std::sync::atomic::Ordering::SeqCst);
+        Some(cur * 2)
+    }
+}
+
+/// H2 through `read_parallel` with the readers' own `parallel::Reader` implementation
+fn run_h2_raw(c: &H2, x: &ExecRef) {
+    use std::sync::atomic::{AtomicUsize, Ordering};
+    let calls = Arc::new(AtomicUsize::new(0));
+    let (seq, seq_err) = sequential(c);
+    macro_rules! raw {
+        ($module:ident, $digest:expr) => {{
+            let reader = seq_io::$module::Reader::with_capacity(std::io::Cursor::new(c.input.clone()), c.cap).set_policy(CountingPolicy(calls.clone()));
+            let digest = $digest;
+            seq_io::parallel::read_parallel(
+                reader,
+                c.threads,
+                c.queue,
+                |set: &mut seq_io::$module::RecordSet| set.len(),
+                |rsets| {
+                    let mut got: Vec<String> = vec![];
+                    let mut err: Option<String> = None;
+                    let mut max_buf = 0usize;
+                    while let Some(item) = rsets.next() {
+                        match item {
+                            Ok((set, n)) => {
+                                if set.len() != n {
+                                    violate(x, "result-pairing", format!("a set of {} records arrived with the worker result {}", set.len(), n));
+                                }
+                                max_buf = max_buf.max(set.buf_capacity());
+                                for rec in &*set {
+                                    got.push(digest(&rec));
+                                }
+                            }
+                            Err(e) => err = Some(format!("{:?}", e)),
+                        }
+                    }
+                    (got, err, max_buf)
+                },
+            )
+        }};
+    }
+    let (got, err, max_buf) = match c.format {
+        Fmt::Fasta => {
+            use seq_io::fasta::Record;
+            raw!(fasta, |rec: &seq_io::fasta::RefRecord| format!("{}|{}", String::from_utf8_lossy(rec.head()), String::from_utf8_lossy(&rec.owned_seq())))
+        }
+        Fmt::Fastq => {
+            use seq_io::fastq::Record;
+            raw!(fastq, |rec: &seq_io::fastq::RefRecord| format!("{}|{}|{}", String::from_utf8_lossy(rec.head()), String::from_utf8_lossy(rec.seq()), String::from_utf8_lossy(rec.qual())))
+        }
+    };
+    log(x, Ev::Return { what: format!("{} records, error {:?}", got.len(), err) }, usize::MAX);
+    // with several workers the sets may arrive in any order
+    let same = if c.threads == 1 {
+        got == seq
+    } else {
+        let (mut a, mut b) = (got.clone(), seq.clone());
+        a.sort();
+        b.sort();
+        a == b
+    };
+    if !same || err != seq_err {
+        violate(x, "lost-set", format!("read_parallel over the real reader delivered {:?} / {:?}, sequential reading {:?} / {:?}", got, err, seq, seq_err));
+    }
+    let n = calls.load(Ordering::SeqCst);
+    if n != 0 {
+        violate(x, "buffer-grows-with-input", format!("every record fits the initial capacity {}, but the growth policy was consulted {} times (largest data set buffer {} bytes): the buffer every recycled data set copies grows with the input", c.cap, n, max_buf));
+    }
 }
 
 #[derive(Debug, PartialEq, Eq, Clone)]
@@ -680,6 +760,9 @@ pub fn run_h2(c: &H2, x: &ExecRef) {
         let turn = e.turn.take();
         *e = Exec::default();
         e.turn = turn;
+    }
+    if c.raw_fits {
+        return run_h2_raw(c, x);
     }
     let (res, rset_inits, rec_inits) = match c.format {
         Fmt::Fasta => {
